@@ -272,13 +272,10 @@ def interrupted_close(ctx):
     import sys
     from pathlib import Path
     for how in ('with', 'close-again'):
-        try:
-            p = subprocess.run([sys.executable, str(Path(__file__).resolve().parent / 'c09_case.py'), 'interrupted-close', how],
-                               capture_output=True, text=True, timeout=90, start_new_session=True)
-            lines = [l for l in p.stdout.splitlines() if l.startswith('RESULT ')]
-            res = json.loads(lines[-1][7:]) if lines else {'crash': (p.stdout + p.stderr)[-300:]}
-        except subprocess.TimeoutExpired:
-            res = {'hang': True}
+        from common import run_isolated
+        rc_, out_, err_, timed_out_ = run_isolated([sys.executable, str(Path(__file__).resolve().parent / 'c09_case.py'), 'interrupted-close', how], 90)
+        lines = [l for l in out_.splitlines() if l.startswith('RESULT ')]
+        res = json.loads(lines[-1][7:]) if lines else ({'hang': True} if timed_out_ else {'crash': (out_ + err_)[-300:]})
         ctx.case(('interrupted-close', how), True, sample={'case': 'KeyboardInterrupt during Pool.close() with busy workers', 'then': how, 'observed': res})
         if res.get('hang') or res.get('crash'):
             ctx.fail(f'interrupted-close-{"hangs" if res.get("hang") else "crashed"}:{how}', f'close() interrupted by Ctrl-C ({how}): {res}', {'scenario': 'interrupted-close', 'how': how})
